@@ -300,7 +300,7 @@ MANIFEST = {
              "last >= stop - s/2), get_coord_index (range check, scan for the right slice bound, minus one) and "
              "set_value_at_pos (one lookup per queried dimension, one write) as state machines; TLC checks Impl => Req, bracket "
              "uniqueness, the upper-edge and own-bin laws, termination, and shows (spec/history) that arange without the removal "
-             "test breaks the whole-number count. Every enumerated call (5 constructors, 6-10 steps incl. 0.1, 0.01, 1/3, "
+             "test breaks the whole-number count. Every enumerated call (3 constructors x the ways the step is communicated: step, samplerate or size alone, both agreeing, both conflicting -- the step argument is the step, RangeDim!Denoted --; 6-10 steps incl. 0.1, 0.01, 1/3, "
              "1/44100, 3-4 starts, stops in quarter steps; every coordinate as read back, its two neighbouring doubles, every "
              "midpoint, half a step beyond both ends, raise and clamp, on float64 / float32 / int64 / int32 coordinate arrays; all array "
              "shapes/queried dimensions/positions, scalar and array values, and -- on a sub-universe -- every registration order "
